@@ -347,47 +347,53 @@ def table_worker(mname, which=("C02", "C03", "C04")):
         if ext_op is not None:
             reps.append(("ext", ext_op))
         if isinstance(uf, FuncRef):
-            for kind, K in reps:
-                its = unpacker_iteration(T, uf, m, K)
-                UN = uf.qualname
-                if not its:
-                    ob("C02", "R4", UN, "%s:summarisable" % kind, False, "a loop yielding (offset, op, arg)", "none found")
-                    continue
-                want_w = W["arg"] if K >= ns["HAVE_ARGUMENT"] else W["noarg"]
-                for bi, it in enumerate(its):
-                    tag = "%s%s" % (kind, "" if len(its) == 1 else ":branch%d" % bi)
-                    y = it["yields"][0].args[0] if len(it["yields"]) == 1 else None
-                    cur = it["cursor"]
-                    if not (isinstance(y, tuple) and len(y) == 3) or "advance" not in it:
-                        ob("C02", "R4", UN, "%s:shape" % tag, False, "(offset, op, arg) per iteration", show(y))
-                        continue
-                    ob("C02", "R4", UN, "%s:offset" % tag, repr(y[0]) == repr(cur), show(cur), show(y[0]))
-                    ob("C02", "R4", UN, "%s:advance" % tag, it["advance"] == want_w, want_w, show(it["advance"]),
-                       msg="the unpacker consumes %s bytes for a %d-byte instruction" % (show(it["advance"]), want_w))
-                    if kind == "noarg":
-                        ob("C02", "R4", UN, "%s:arg" % tag, y[2] is None, None, show(y[2]))
-                        continue
-                    b1 = Op("byte", CODE, add(cur, 1))
-                    b2 = Op("byte", CODE, add(cur, 2))
-                    Es = [(n_, hv) for n_, hv in it["head"].items() if isinstance(n_, str) and isinstance(hv, Sym) and repr(hv) != repr(cur) and repr(hv) in atoms_repr(y[2])]
-                    if not Es:
-                        ob("C02", "R4", UN, "%s:arg" % tag, False, "operand bytes + carried extended arg", show(y[2]))
-                        continue
-                    E = Es[0]
+            # The unpacker is run (generators eagerly, loops unrolled: the code string is concrete) on a scripted instruction sequence: an instruction without
+            # operand, one with, an EXTENDED_ARG prefix and its instruction, two stacked prefixes and their instruction, a closing instruction without operand.
+            # What it yields is compared with dis._unpack_opargs of that bytecode layout -- however the unpacker's loops, helpers and byte access are written.
+            UN = uf.qualname
+            kinds = dict(reps)
+            if "noarg" in kinds and "arg" in kinds:
+                K0, K1 = kinds["noarg"], kinds["arg"]
+                seq = [(K0, None), (K1, 0x3412)]
+                if ext_op is not None:
+                    seq += [(ext_op, 0x01), (K1, 0x7856), (ext_op, 0x02), (ext_op, 0x03), (K1, 0x9ABC)]
+                seq += [(K0, None)]
+                code_, want_ = [], []
+                ext_ = 0
+                for op_, a_ in seq:
+                    off_ = len(code_)
                     if wordcode:
-                        expA = binop(ast.BitOr(), b1, E[1])
-                        exp_ext = mul(expA, 256)
+                        code_ += [op_, (a_ or 0) & 0xFF]
+                        if op_ >= ns["HAVE_ARGUMENT"]:
+                            arg_ = ((a_ or 0) & 0xFF) | ext_
+                            ext_ = (arg_ << 8) if op_ == ext_op else 0
+                        else:
+                            arg_ = None
+                    elif a_ is None:
+                        code_ += [op_]
+                        arg_ = None
                     else:
-                        expA = add(add(b1, mul(b2, 256)), E[1])
-                        exp_ext = mul(expA, 65536)
-                    # '|' and '+' agree when the carried value has its low bits clear; normal form of the decoder is used
-                    alt = binop(ast.BitOr(), add(b1, mul(b2, 256)), E[1]) if not wordcode else expA
-                    ob("C02", "R4", UN, "%s:arg" % tag, repr(y[2]) in (repr(expA), repr(alt)), show(expA), show(y[2]),
-                       msg="the unpacker used by the label finder assembles the operand differently from the decoder: the bytes it consumes are not the bytes it combines")
-                    nxt = it["env"].get(E[0])
-                    want_next = exp_ext if kind == "ext" else 0
-                    alt_next = mul(y[2], 65536 if not wordcode else 256) if kind == "ext" else 0
-                    ob("C02", "R4", UN, "%s:ext-carry" % tag, repr(nxt) in (repr(want_next), repr(alt_next)), show(want_next), show(nxt))
+                        code_ += [op_, a_ & 0xFF, (a_ >> 8) & 0xFF]
+                        arg_ = (a_ & 0xFFFF) + ext_
+                        ext_ = arg_ * 65536 if op_ == ext_op else 0
+                    want_.append((off_, op_, arg_))
+                got_ = None
+                for blob in (bytes(code_),):
+                    spu = Spec(T.F)
+                    spu.eager_generators = True
+                    try:
+                        got_ = spu.call(uf, [blob, m], {}, None, {})
+                    except Exception as ex:
+                        got_ = "not evaluable: %s" % str(ex)[:100]
+                if isinstance(got_, list):
+                    got_ = [tuple(t_) if isinstance(t_, (tuple, list)) else t_ for t_ in got_]
+                okU = isinstance(got_, list) and got_ == want_
+                ob("C02", "R4", UN, "script:yields", okU, [("%d" % o_, "%d" % p_, "None" if a_ is None else "0x%x" % a_) for o_, p_, a_ in want_],
+                   [show(t_)[:60] for t_ in got_][:10] if isinstance(got_, list) else show(got_)[:200],
+                   msg="the operand unpacker the label finder of %s uses yields %s for the scripted code %s; dis._unpack_opargs yields %s (offset, opcode, operand with the EXTENDED_ARG "
+                       "prefixes folded in)" % (short, ([show(t_) for t_ in got_][:8] if isinstance(got_, list) else show(got_)[:120]), bytes(code_).hex(), want_))
+            else:
+                ob("C02", "R4", UN, "script:yields", False, "an opcode with and one without operand to script", sorted(kinds))
     out.append(("META", "ops", short, n_ops, True, None, None, None, None))
     return out
 
